@@ -76,7 +76,7 @@ def observe(ctx, snapshot):
 
 
 def judge(part, wname, world, script):
-    run = actdrv.Run(world, script, observe=observe).go()
+    run = actdrv.Run(world, script, observe=observe, look_first=True).go()
     case = {"world": wname, "script": [list(s) for s in script]}
     part.count("runs")
     if run.error is not None:
